@@ -102,6 +102,24 @@ func structCases(c *Ctx) []json.RawMessage {
 		for i := 0; i < c.Pick(400, 8000); i++ {
 			add(randStruct(rng, schema, i%3 == 0))
 		}
+		// every known id arriving with every OTHER wire type (incl. the types its neighbours use), at every position
+		// relative to the genuine fields: skipped like any unknown field
+		{
+			ids := map[string][]int{"Base": {1, 2, 3, 6}, "BaseResp": {1, 2, 3}, "AppEx": {1, 2}}[schema]
+			own := map[string][]int{"Base": {11, 11, 11, 13}, "BaseResp": {11, 8, 13}, "AppEx": {11, 8}}[schema]
+			for j, id := range ids {
+				for _, t := range []int{2, 3, 4, 6, 8, 10, 11, 12, 13, 14, 15} {
+					if t == own[j] {
+						continue
+					}
+					for pos := 0; pos <= len(ids); pos++ {
+						s := randStruct(rng, schema, false)
+						s.Unk = []UnkField{{Pos: pos, T: t, ID: id, Seed: rng.Int63()}}
+						add(s)
+					}
+				}
+			}
+		}
 		// all permutations of the known fields x interleaved unknown fields x map shapes
 		nk := map[string]int{"Base": 4, "BaseResp": 3, "AppEx": 2}[schema]
 		ids := map[string][]int{"Base": {1, 2, 3, 6}, "BaseResp": {1, 2, 3}, "AppEx": {1, 2}}[schema]
